@@ -5,6 +5,7 @@ import (
 	"fmt"
 	"strings"
 
+	"github.com/koykov/bytebuf"
 	"github.com/koykov/dyntpl"
 )
 
@@ -182,6 +183,83 @@ func init() {
 					r.Violate("call-form "+letters+" "+call, "escape letters in front of the call form of a modifier do not escape the modifier's result",
 						map[string]any{"source": "{%" + letters + "= " + call + " %}", "output": string(got.Out), "modifier_result": string(plain.Out), "letters_on_that_result": string(want.Out), "error": got.ErrStr()})
 				}
+			}
+		}
+		// tags do not influence one another (a relation on the real engine alone): a template made of two or three
+		// print tags renders the concatenation of what each tag renders alone — the same expression behind different
+		// letters, chains of every length 1..8, results handed back in a public buffer of the context, values that
+		// are byte buffers themselves, empty results after non-empty ones
+		{
+			var tags []string
+			for n := 1; n <= 8; n++ {
+				chain := "v"
+				for k := 0; k < n; k++ {
+					chain += []string{`|default(y)`, `|default(z)`, `|default("n/a")`, `|vcat("x")`, `|ifThen(y)`}[(k+n)%5]
+				}
+				for _, l := range []string{"h", "u", "q", ""} {
+					tags = append(tags, "{%"+l+"= "+chain+" %}")
+				}
+			}
+			tags = append(tags, `{%h= title %}`, `{%q= code|vletters %}`, `{%qq= code|vletters %}`, `{%q= digits|vletters %}`, `{%j= digits|vletters %}`, `{%h= digits|vletters|default("none") %}`,
+				`{%q= chain %}`, `{%u= chain %}`, `{%q= echain %}`, `{%qq= echain %}`, `{%= echain|jsonQuote %}`, `{%q= e %}`, `{%= title|htmlEscape|jsonQuote %}`, `{%a= title %}`)
+			var chain, echain bytebuf.Chain
+			mk := func() *dyntpl.Ctx {
+				c := dyntpl.NewCtx()
+				c.SetString("title", "<Tom & Jerry>")
+				c.SetString("code", `a"1b`)
+				c.SetString("digits", "123")
+				c.SetString("y", "")
+				c.SetString("z", `z<"z">`)
+				c.SetString("e", "")
+				chain.Reset()
+				chain.WriteString(`ch "ain" &`)
+				echain.Reset()
+				c.SetStatic("chain", &chain)
+				c.SetStatic("echain", &echain)
+				return c
+			}
+			alone := map[string]rendered{}
+			for _, t := range tags {
+				k, err, pan := regTpl(t, true)
+				if err != nil || pan != "" {
+					r.Internal("tag independence: tag does not parse: " + t)
+					continue
+				}
+				alone[t] = renderSafe(k, mk())
+			}
+			check := func(seq []string) {
+				src, want := "", ""
+				for i, t := range seq {
+					a, ok := alone[t]
+					if !ok || a.Err != nil || a.Panic != "" {
+						return
+					}
+					if i > 0 {
+						src, want = src+";", want+";"
+					}
+					src, want = src+t, want+string(a.Out)
+				}
+				k, err, pan := regTpl(src, true)
+				var got rendered
+				if err == nil && pan == "" {
+					got = renderSafe(k, mk())
+				}
+				r.Count("tag-independence:"+src, true)
+				r.Dist["tag-independence"]++
+				if err != nil || pan != "" || got.Err != nil || got.Panic != "" || string(got.Out) != want {
+					r.Violate("tag-independence "+src, "print tags of one template influence one another: the template does not render what its tags render one by one",
+						map[string]any{"source": src, "output": string(got.Out), "tags_alone": want, "error": got.ErrStr(), "parse_error": fmt.Sprint(err), "panic": got.Panic + pan})
+				}
+			}
+			for i, a := range tags {
+				for j, b := range tags {
+					if !r.Thorough() && (i*31+j*7)%3 != 0 && a[:4] == b[:4] && i != j {
+						// (quick tier: a third of the pairs with equal letters; all pairs with different letters)
+						continue
+					}
+					check([]string{a, b})
+				}
+				check([]string{a, tags[(i*7+3)%len(tags)], a})
 			}
 		}
 		// spellings of a key-value group (a relation on the real engine alone: the parser decides what the
